@@ -97,8 +97,8 @@ pub fn comment_word_stream(root: &SyntaxNode) -> Vec<String> {
                 | K::ListMarker
                 | K::EnumMarker
                 | K::TermMarker
-                | K::Shebang
                 | K::Prime => out.push(format!("W:{}", n.text())),
+                K::Shebang => out.push(format!("W:{}", n.text().trim_end())),
                 K::Not | K::In if parent_not_in => {}
                 _ if is_keyword_word(k) => out.push(format!("W:{}", n.text())),
                 _ => {}
